@@ -8,7 +8,14 @@ for d in /verif/seeded/*/ /verif/equiv/*/; do
   rsync -a --exclude .git /repo/ $wt/
   (cd $wt && git apply $d/patch.diff) || { echo "$d: git apply failed"; fail=1; rm -rf $wt $out; continue; }
   PLUSH_REPO=/repo $bin -dump-patch $d/patch.diff -dump-out $out || { echo "$d: in-memory apply failed"; fail=1; rm -rf $wt $out; continue; }
-  (cd $out && find . -type f) | while read f; do cmp -s $out/$f $wt/$f || echo "$d: DIFFERS $f"; done
+  (cd $out && find . -type f) | while read f; do
+    if [ ! -e $wt/$f ]; then
+      # a deleted file is replayed as a file with nothing but its package clause
+      [ "$(grep -cv '^package ' $out/$f)" = "0" ] || echo "$d: DIFFERS $f (deleted)"
+    else
+      cmp -s $out/$f $wt/$f || echo "$d: DIFFERS $f"
+    fi
+  done
   rm -rf $wt $out
 done
 echo done fail=$fail
